@@ -832,7 +832,9 @@ def parser_details(repo, rep, rule="R03.3", slash=False):
     if not hy or any(c.func.attr != "search" for c in hy):
         bad.append("'--' is not searched for in the whole comment (%s)"
                    % [c.func.attr for c in hy])
-    rep.check(n >= 8 and not bad, rule, idf.qualname, "token "
+    if n < 5:
+        raise AnalysisError("identify(): delimiter tests vanished (%d)" % n)
+    rep.check(not bad, rule, idf.qualname, "token "
               "classification: opening delimiters at the start, closing "
               "ones at the end, '--' anywhere in a comment (%d tests)" % n,
               construct="identify-ends", where=L.where(idf),
